@@ -68,8 +68,18 @@ class Session:
         return e
 
     def cmd(self, t, text, rport=45000):
+        if not hasattr(self, "last"):
+            self.last = {}
+        self.last[t] = text          # the last command on this control link (see repeat())
         raw = text if isinstance(text, (bytes, bytearray)) else (text.encode() + b"\0")
         return self._add(self.sim.cmd(t, raw, ("127.0.0.1", rport)))
+
+    def repeat(self, t):
+        """The command last sent on this control link once more, octet for octet: every command is
+        executed when it arrives, also when it equals the previous one (FAKE_DROP re-arms its counter,
+        a relative FAKE_TOA / FAKE_RSSI moves again, POWERON of a running transceiver is refused)."""
+        text = getattr(self, "last", {}).get(t)
+        return None if text is None else self.cmd(t, text)
 
     def data(self, t, raw, remote=None):
         return self._add(self.sim.data(t, raw, remote))
@@ -334,6 +344,9 @@ def traffic_session(ctx, sid, prof, length=None):
         r = rng.random()
         t = rng.randrange(n)
         trx = sim.trx[t]
+        if rng.random() < 0.06:
+            s.repeat(t)
+            continue
         if r < P["arr"]:
             src = g.clck_src if g.running else 0
             off = rng.randint(*P["off"])
